@@ -39,7 +39,7 @@ static int replay(const std::string &file) {
   std::ifstream f(file); std::stringstream ss; ss << f.rdbuf(); NumCase c; std::string prop;
   if (!case_from_text(ss.str(), c, prop)) { fprintf(stderr, "not a numcase file: %s\n", file.c_str()); return 2; }
   g_prop = prop; const Spec *s = find_spec(c.sol); if (!s) { fprintf(stderr, "unknown solution %s\n", c.sol.c_str()); return 2; }
-  if (c.only.find(':') != std::string::npos) c.only.clear();   // relations are evaluated with the whole case
+  { bool is_ev = false; for (auto &e : s->evals) if (e.label == c.only) is_ev = true; if (!is_ev) c.only.clear(); }   // relations (labels that are not evaluators) are evaluated with the whole case
   auto out = run_case(*s, c, g_K, prop); int worst = 0;
   for (auto &o : out) { fprintf(stderr, "  %-28s lib=%-26s ref=%s mag=%s err=%.4g eps*mag status=%d %s\n", o.label.c_str(), decld(o.lib).c_str(), str(o.ref).c_str(), str(Q(o.ref.m)).c_str(), o.err, o.status, o.note.c_str()); if (o.status == 1) worst = std::max(worst, 2); if (o.status == 2) worst = std::max(worst, 1); }
   fprintf(stderr, "REPLAY %s\n", worst == 2 ? "violation" : worst == 1 ? "finding" : "pass");
